@@ -19,7 +19,7 @@ LEVEL_TEXT = ("For every config field and every value of a bounded JSON/YAML gra
               "that contains valid and invalid spellings plus a symbolic one-character string) z3 shows that the constructor accepts exactly the values the documented type admits, that "
               "accepted values are stored in canonical form independent of the list/tuple spelling, that a front-matter override yields the same field value as the constructor "
               "(dict fields merged over the global value), that an invalid override leaves the field unchanged with exactly one warning, that merge_file_level never raises and never "
-              "modifies the global configuration object. read_topmatter's line logic is checked on symbolic texts.")
+              "modifies the global configuration object nor shares its extension set with it. read_topmatter's line logic is checked on symbolic texts.")
 LEVEL_NOTE = ("Degenerate in the shape dimension (the solver enumerates the shapes by case split); genuinely symbolic in integer leaves and the one-character string leaf. Trusted: symx, z3, "
               "the per-field table of documented types in this harness. yaml.safe_load is stubbed (returns the captured text); docutils' OptionParser is outside.")
 BUDGET_S = {"quick": 150, "thorough": 1200}
